@@ -1136,6 +1136,12 @@ func genSecrets() {
 						die("%s: cannot resolve the type of the value saved by Save(%s, %s, %s)", c.name, exprString(call.Args[0]), exprString(call.Args[1]), sec)
 					}
 					ty = strings.TrimPrefix(deref(ty), modPath+"/")
+					dot := strings.LastIndex(ty, ".")
+					if dot < 0 {
+						die("%s: Save of a value of type %s", c.name, ty)
+					}
+					// the method whose output is written: <dir>:<Type>.TOML
+					ty = ty[:dot] + ":" + ty[dot+1:] + ".TOML"
 					sites = append(sites, site{c.name, exprString(call.Args[0]), ty, sec})
 					return true
 				})
@@ -1145,7 +1151,7 @@ func genSecrets() {
 	if len(sites) == 0 {
 		die("secrets: no key.Save call sites found")
 	}
-	l.pf("/-- every call of common/key.Save in scope: (caller, path expression, type of the saved value, secure) -/\n")
+	l.pf("/-- every call of common/key.Save in scope: (caller, path expression, TOML method of the saved value, secure) -/\n")
 	l.pf("def saveCallSites : List (String × String × String × Bool) := [\n")
 	for i, s := range sites {
 		sep := ","
